@@ -227,6 +227,19 @@ func c13ListCase(r *mon.Run, lc listCase, c mon.Case) {
 	if strings.Join(got, ",") != strings.Join(want, ",") {
 		r.Violate("list-items-lost", c, "%s renders items %v, want %v\n%s", desc(), got, want, injected)
 	}
+	// other real items without text (an empty operator, an empty identifier) are items too: like Empty()
+	if lc.Empty >= 0 {
+		for _, alt := range []struct {
+			name string
+			code jen.Code
+		}{{`Op("")`, jen.Op("")}, {`Id("")`, jen.Id("")}, {`Add(Empty())`, jen.Add(jen.Empty())}} {
+			got, f9 := rawOf(k.mk(lc.items(true, alt.code)...))
+			if f9 != "" || got != injected {
+				r.Violate("empty-not-separating", c, "%s: with %s in the place of Empty() the list renders (%s)\n%s\nwant the same as with Empty()\n%s", desc(), alt.name, f9, got, injected)
+			}
+		}
+		r.Count("empty_text_items_compared_with_Empty", 3)
+	}
 	// Empty() takes part in separation exactly like a real item with no text
 	if lc.Empty >= 0 {
 		marked, f3 := rawOf(k.mk(lc.items(true, jen.Id("EMPTYMARKQ"))...))
